@@ -1101,7 +1101,12 @@ fn c14_profiles() -> Vec<(&'static str, Profile, u32, u32)> {
     p.post_pct = 30;
     p.max_ops = 35;
     p.long_dispatch_pct = 6;
-    vec![("hist", p, 40000, 750000)]
+    // the same zoo with failing callbacks (process_events returns Err): a source that leaves in the callback that
+    // then fails must still leave the hook set (seed c14i)
+    let mut q = p.clone();
+    q.err_pct = 12;
+    q.post_pct = 40;
+    vec![("hist", p, 40000, 750000), ("faults", q, 20000, 300000)]
 }
 
 pub static C14: HistProp = HistProp {
